@@ -3,7 +3,7 @@ import os
 import engine as E
 from props.fanout_common import tla_set, behaviours
 
-INVS = "AtMostOneInput PipelineOwned NotifyPaired PullSane PushSane"
+INVS = "AtMostOneInput PipelineOwned NotifyPaired PullSane PushSane PlayerSane"
 
 CFGS = {
     # stage 1: every kind of input and output, no relay pull
@@ -68,6 +68,36 @@ CFGS = {
 # protocol-agnostic, so every pull configuration has a twin whose driver uses an rtsp:// URL and the RTSP origin stub
 for _cid, _rid in (("P0", "R0"), ("P1", "R1"), ("P2", "R2"), ("P3", "R3"), ("P4", "R4"), ("P5", "R5"), ("F2", "F3")):
     CFGS[_rid] = dict(CFGS[_cid], PullRtsp=True)
+# which description the stream hands to an RTSP player (C03): a player that stays (asks, is answered at once or parked until an
+# input with a description is accepted) next to a relay pull from an RTSP origin, an RTSP publisher and a customize / RTMP publisher
+CFGS["D0"] = dict(RtmpPubs=[], RtspPubs=[], CustPubs=["k1"], PsPubs=[], RtmpSubs=[], FlvSubs=[], Players=["v1"], PullRtsp=True,
+                  PullRetry=0, PullAuto=-1, PullEnabled=True, Hook=False)
+CFGS["D1"] = dict(RtmpPubs=[], RtspPubs=["q1"], CustPubs=["k1"], PsPubs=[], RtmpSubs=[], FlvSubs=[], Players=["v1"], PullRtsp=True,
+                  PullRetry=1, PullAuto=-1, PullEnabled=True, Hook=True)
+CFGS["D2"] = dict(RtmpPubs=["p1"], RtspPubs=[], CustPubs=["k1"], PsPubs=[], RtmpSubs=["s1"], FlvSubs=[], Players=["v1"], PullRtsp=True,
+                  PullRetry=1, PullAuto=-1, PullEnabled=True, Hook=False)
+
+
+def _a(name, x="", attempts=0, notif=0):
+    return {"name": name, "x": x, "obs": {"attempts": attempts, "notif": [0] * notif, "hook": []}}
+
+
+# directed schedules (paths of the model written down by hand; like every scenario they are judged by TLC on what was observed):
+# a relay pull from an RTSP origin that is refused when the origin's description arrives - a publisher took the stream, or
+# stop_relay_pull disabled the pull, while the attempt was in flight - and an RTSP player that asks afterwards, or is parked already
+DIRECTED = [
+    ("D2", [_a("StartPull", attempts=1), _a("AddCust", "k1"), _a("PullOk", attempts=1, notif=1), _a("PlayerAsk", "v1", 1, 1)]),
+    ("D2", [_a("StartPull", attempts=1), _a("AddCust", "k1"), _a("PlayerAsk", "v1", 1, 1), _a("PullOk", attempts=1, notif=1),
+            _a("DelCust", "k1"), _a("PlayerBye", "v1", 1, 1)]),
+    ("D1", [_a("StartPull", attempts=1), _a("NewPub", "q1", 1, 1), _a("PullOk", attempts=1, notif=1), _a("PlayerAsk", "v1", 1, 1),
+            _a("Probe", "q1", 1)]),
+    ("D1", [_a("StartPull", attempts=1), _a("StopPull", attempts=1), _a("PullOk", attempts=1, notif=1), _a("PlayerAsk", "v1", 1, 1),
+            _a("NewPub", "q1", 1, 1)]),
+    ("D2", [_a("StartPull", attempts=1), _a("PlayerAsk", "v1", 1, 1), _a("StopPull", attempts=1), _a("PullOk", attempts=1, notif=1),
+            _a("NewPub", "p1", 1, 1), _a("NewSub", "s1", 1, 1), _a("Probe", "p1", 1)]),
+    ("D1", [_a("PlayerAsk", "v1", 0, 1), _a("StartPull", attempts=1), _a("NewPub", "q1", 1, 1), _a("PullOk", attempts=1, notif=1),
+            _a("PlayerBye", "v1", 1, 1)]),
+]
 HLS_SETS = {("h1",): "Hls1", ("h1", "h2"): "Hls2"}      # defined in spec/Lifecycle.tla
 
 
@@ -85,6 +115,9 @@ def write_cfg(cid, mode, max_tick, max_att):
         lines.append("  HlsSubs <- %s" % HLS_SETS[tuple(c["HlsSubs"])])
     if c.get("PullRtsp"):
         lines.append("  PullHdrMsgs <- PullHdrRtsp")
+    if c.get("Players"):
+        assert c["Players"] == ["v1"]
+        lines.append("  Players <- Pl1")
     if c.get("Linger"):
         lines.append("  HlsLingerOn <- Yes")
     for k in ("PullRetry", "PullAuto"):
@@ -126,7 +159,8 @@ def drv_cfg(cid):
             "pullAutoMs": (-1 if c["PullAuto"] < 0 else c["PullAuto"] * 700), "hook": c.get("Hook", True), "outputs": c.get("Outputs", False), "leak": 0,
             "pushTargets": c.get("Push", []), "paramLen": c.get("ParamLen", 0), "wirePubs": c.get("WirePubs", []),
             "tsSubs": c.get("TsSubs", []), "httpNotify": c.get("HttpNotify", False),
-            "rtspWire": c.get("MaxSweep", 0) > 0, "hlsSubs": c.get("HlsSubs", []), "pullRtsp": c.get("PullRtsp", False)}
+            "rtspWire": c.get("MaxSweep", 0) > 0, "hlsSubs": c.get("HlsSubs", []), "pullRtsp": c.get("PullRtsp", False),
+            "players": c.get("Players", []), "hlsSettle": c.get("Linger", False)}
 
 
 def signature(r):
@@ -134,14 +168,18 @@ def signature(r):
     if ev.get("ev") == "Died":
         return "Died:%s:%s" % (str(ev.get("kind")).split("[")[0].strip()[:50], ev.get("frame"))
     obs = ev.get("obs", {})
+    if "desc" in ev and any(ev["desc"].values()):
+        # whose description the RTSP player(s) hold at the rejected step
+        return "%s:ret=%s:desc=%s%s" % (ev.get("ev"), obs.get("ret"), "+".join(sorted(set(v for v in ev["desc"].values() if v))),
+                                        ":hook=%d" % len(obs.get("hook", [])) if obs.get("hook") else "")
     tr = r["trace"][:r["line"]]
     kinds = "+".join(sorted(set(e["ev"] for e in tr if e["ev"] in ("StartPs", "AddCust", "PullOk", "PullFail", "StartPull", "Kick"))))
     return "%s:ret=%s:notif=%d:hook=%d%s" % (ev.get("ev"), obs.get("ret"), len(obs.get("notif", [])), len(obs.get("hook", [])),
                                            (":after_" + kinds) if kinds else "")
 
 
-def run_lifecycle(ctx, bfs, emit, sim, leak=None):
-    """bfs/emit: lists of (cid, max_tick, max_att); sim: (cid, max_tick, max_att, num, depth)."""
+def run_lifecycle(ctx, bfs, emit, sim, leak=None, directed=None):
+    """bfs/emit: lists of (cid, max_tick, max_att); sim: (cid, max_tick, max_att, num, depth); directed: (cid, steps)."""
     E.build_harness(ctx, tags="verif,verif_wire")
     scen = []
 
@@ -175,6 +213,8 @@ def run_lifecycle(ctx, bfs, emit, sim, leak=None):
         ctx.log("simulate %s: %d behaviours" % (cid, len(bs)))
         for b in bs:
             add(cid, b)
+    for (cid, steps) in (directed or []):
+        add(cid, steps)
     if leak:
         cid, n = leak
         c = drv_cfg(cid)
